@@ -1397,4 +1397,27 @@ example :
       (by simp) (by simp [B2]) (by simp [B2]) (by simp [B2])
     simp [B2, B2'] at this
 
+/-! ## Pass 11 -/
+
+/-- **Strict minimum norm.**  Every least-squares step other than the one in the range of `(W J)ᵀ` is strictly longer.  In
+particular, for a rank-deficient square `W J` an "exact" solution produced by an LU factorisation (any solution of
+`W J δ' = -W R` that is not the pseudo-inverse one) is NOT the step of the default solver. -/
+theorem gn_minnorm_strict (m n : Nat) (W : Option (Nat → Nat → ℝ)) (J : Nat → Nat → ℝ) (R : Nat → ℝ) (δ : Fin n → ℝ)
+    (w : Fin m → ℝ)
+    (h : (toMat m n (gnA m W J))ᵀ *ᵥ (toMat m n (gnA m W J) *ᵥ δ - toVec m (gnb m W R)) = 0)
+    (hrange : δ = (toMat m n (gnA m W J))ᵀ *ᵥ w) (δ' : Fin n → ℝ)
+    (h' : (toMat m n (gnA m W J))ᵀ *ᵥ (toMat m n (gnA m W J) *ᵥ δ' - toVec m (gnb m W R)) = 0) (hne : δ' ≠ δ) :
+    nrm2 δ < nrm2 δ' := by
+  obtain ⟨hle, huniq⟩ := gn_minnorm m n W J R δ w h hrange δ' h'
+  exact lt_of_le_of_ne hle (fun e => hne (huniq e.symm))
+
+/-- non-vacuity: one residual row, two unknowns, `J = (1 1)`, `R = -2`: the pseudo-inverse step is `(1, 1) = Jᵀ·1`; the exact
+solution `(2, 0)` of `J δ = -R` is a different least-squares step and strictly longer. -/
+example : nrm2 (![1, 1] : Fin 2 → ℝ) < nrm2 (![2, 0] : Fin 2 → ℝ) := by
+  refine gn_minnorm_strict 1 2 none (fun _ _ => 1) (fun _ => -2) ![1, 1] (fun _ => 1) ?_ ?_ ![2, 0] ?_ ?_
+  · ext i; fin_cases i <;> simp [toMat, toVec, gnA, gnb, Matrix.mulVec, dotProduct, Fin.sum_univ_two] <;> norm_num
+  · ext i; fin_cases i <;> simp [toMat, gnA, Matrix.mulVec, dotProduct]
+  · ext i; fin_cases i <;> simp [toMat, toVec, gnA, gnb, Matrix.mulVec, dotProduct, Fin.sum_univ_two]
+  · intro e; have := congrFun e 1; simp at this
+
 end PP.GNStep
